@@ -1285,8 +1285,12 @@ class Fn:
                                 pwrites = []
                                 evs2, retv, ret_held = instantiate_path(cp, args, inst, held_here, callee, writes=pwrites)
                                 # what the caller stored through a place before the call is what the helper reads from it
+                                # (only fields OF a by-reference argument: `helper(&mut state)` reading `state.f` after the caller
+                                # wrote `state.f`; an argument that is itself a value read earlier is a snapshot and stays as it is)
                                 if heap:
-                                    evs2, retv = heap_rewrite(evs2, retv, heap)
+                                    sub = {k_: v_ for k_, v_ in heap.items() if isinstance(k_, tuple) and k_ and k_[0] == 'field' and any(k_[1] == a_ for a_ in args)}
+                                    if sub:
+                                        evs2, retv = heap_rewrite(evs2, retv, sub)
                                 # decisions the helper took on its parameters may be decided by the
                                 # caller's arguments or by what this path already knows
                                 memo_i = decisions_feasible(evs2, memo, facts)
